@@ -186,7 +186,7 @@ type I16 struct { // Attrs / Assign argument
 }
 
 type R16 struct {
-	Kind string   `json:"kind"` // nothing | all | updates
+	Kind string   `json:"kind"`          // nothing | all | updates
 	Asg  [][2]int `json:"asg,omitempty"` // (col, lit) ; lit = -1 means excluded.col
 }
 
@@ -460,6 +460,12 @@ func (e *env16) runReal(p *P16) (out realOut) {
 	case "save":
 		dest = mk16(p.Soft, p.Fin.Row)
 		res = h.Save(dest)
+	case "save2":
+		// db.Save(&v); db.Save(&v) — judged by the reference of ONE Save (idempotence)
+		dest = mk16(p.Soft, p.Fin.Row)
+		if res = h.Save(dest); res.Error == nil {
+			res = h.Save(dest)
+		}
 	case "create":
 		dest = mk16(p.Soft, p.Fin.Row)
 		res = h.Create(dest)
@@ -777,6 +783,9 @@ func genLogical16On(rng *rand.Rand, rich bool, soft bool, rows [][]int) *P16 {
 	switch k := rng.Intn(10); {
 	case k < 2:
 		p.Fin = F16{K: "save", Row: genRow16(rng, p.Soft, rng.Intn(c16Keys+1))}
+		if !rich && rng.Intn(2) == 0 {
+			p.Fin.K = "save2"
+		}
 	case k < 5:
 		p.Fin = F16{K: "create", Row: genRow16(rng, p.Soft, rng.Intn(c16Keys+2))}
 		if rng.Intn(6) != 0 {
@@ -851,7 +860,7 @@ func (p *P16) collides() bool {
 		return false
 	}
 	switch p.Fin.K {
-	case "save", "create":
+	case "save", "save2", "create":
 		for _, r := range p.Rows {
 			if r[0] == p.Fin.Row[0] {
 				return true
@@ -956,19 +965,19 @@ func tieSuite(r *Result, rng *rand.Rand, tier string) {
 func branch16(p *P16) string {
 	t := newRef16(p.Soft, p.Rows)
 	switch p.Fin.K {
-	case "save":
+	case "save", "save2":
 		k := p.Fin.Row[0]
 		if k == 0 {
-			return "save/zero-key-insert"
+			return p.Fin.K + "/zero-key-insert"
 		}
 		old, ok := t.rows[k]
 		switch {
 		case !ok:
-			return "save/absent-upsert-inserts"
+			return p.Fin.K + "/absent-upsert-inserts"
 		case t.live(old):
-			return "save/live-update-all"
+			return p.Fin.K + "/live-update-all"
 		}
-		return "save/soft-deleted-upsert-updates"
+		return p.Fin.K + "/soft-deleted-upsert-updates"
 	case "create":
 		rule := "norule"
 		for _, s := range p.Steps {
@@ -1225,7 +1234,7 @@ func refRun(p *P16) O16 {
 	errc := "ok"
 	wasHit := false
 	switch p.Fin.K {
-	case "save":
+	case "save", "save2":
 		rec, errc = t.save(p.Fin.Row)
 	case "create":
 		rec, errc = t.create(p.Fin.Row, rule)
